@@ -198,6 +198,30 @@ def run(ctx):
     _sc, _sr, start_lit = dv.start_search()
     start_txt = start_lit.decode("latin-1") if isinstance(start_lit, bytes) else start_lit
     resyncs = dv.resync_scans()
+    # the scan starts strictly behind the frame's own start: `start + k`, k >= 1 over the buffer (k >= 1 alone over the text cut at the start);
+    # from the start itself it finds the frame's own marker, the bad frame "ends" where it begins, nothing is consumed and the reader is stuck
+    from sa.decoder import linear_forms
+    for c_ in resyncs:
+        cn = next((n.id for n in g.nodes if n.kind in ("stmt", "test") and n.ast is not None and any(x is c_ for x in ast.walk(n.ast))), None)
+        if cn is None:
+            continue
+        forms = linear_forms(dv, c_.args[1], cn)
+        if not forms:
+            continue
+        over_buf = unparse(c_.func.value) == dv.buf
+        verdicts = []
+        for terms, cst in forms:
+            starts = [k for k in terms if dv.sources(ast.Name(id=k.split("@")[0], ctx=ast.Load()), cn) == {"START"}] if over_buf else []
+            other = [k for k in terms if k not in starts]
+            if other or (over_buf and (len(starts) != 1 or terms[starts[0]] != 1)):
+                verdicts.append(None)
+            else:
+                verdicts.append(cst >= 1)
+        if any(v is None for v in verdicts):
+            continue
+        ctx.instance(R5, f"Codec.decode[resync scan starts behind the frame start: {short(c_, 40)}]", all(verdicts),
+                     f"`{short(c_)}` looks for the next frame start from the bad frame's own first byte (or before it): it finds the frame's own marker, "
+                     "the length dropped for the bad frame is 0 and the reader sees the same bytes again and again", loc(c_))
 
     def derived_calls(e, at, seen=None, depth=0):
         seen = set() if seen is None else seen
